@@ -57,6 +57,19 @@ def pairs(tier):
 
 
 CONTAINERS = ["self", "middle", "farr", "varr", "variant", "in-delimited", "in-delimited-array"]
+BIG_CONTAINERS = ["middle", "farr9", "varr17"]
+
+
+def big_pairs():
+    """Revisions whose payloads / appended members are beyond a kilobyte, and short ones nested in arrays of 9 / 17 elements."""
+    u8 = ["uint", 8, "s"]
+    heads = [[["farr", u8, 1100]], [u8], [["farr", ["byte"], 1030], ["bool"]]]
+    tails = [["farr", ["byte"], 16], ["farr", u8, 1100], ["varr", ["utf8"], 1200], ["farr", ["byte"], 1025], ["uint", 16, "s"]]
+    for h in heads:
+        for t in tails:
+            long = h + [t]
+            base = -(-L.tmax(["struct", long]) // 8) * 8
+            yield ["delim", ["struct", h], base + 16], ["delim", ["struct", long], base + 16]
 
 
 def container(kind, X):
@@ -64,6 +77,10 @@ def container(kind, X):
         return X
     if kind == "middle":
         return ["struct", [["uint", 3, "s"], X, ["bool"], ["uint", 8, "s"]]]
+    if kind == "farr9":
+        return ["struct", [["bool"], ["farr", X, 9], ["uint", 8, "s"]]]
+    if kind == "varr17":
+        return ["struct", [["uint", 3, "s"], ["varr", X, 17], ["uint", 8, "s"]]]
     if kind == "farr":
         return ["struct", [["bool"], ["farr", X, 2], ["uint", 8, "s"]]]
     if kind == "varr":
@@ -108,17 +125,17 @@ def convert(wd, rd, v):
     return v
 
 
-def layout_obs(t: pydsdl.CompositeType):
+def layout_obs(t: pydsdl.CompositeType, expand: bool = True):
     b = t.bit_length_set
     d = {"min": b.min, "max": b.max, "extent": t.extent, "align": t.alignment_requirement}
     for m in (8, 16, 32, 64):
         d["%%%d" % m] = sorted(b % m)
-    if b.max - b.min <= 4096:
+    if expand and b.max - b.min <= 4096:
         d["set"] = sorted(b)
     offs = []
     for base in ([0], [4, 8]):
         for f, o in t.iterate_fields_with_offsets(BitLengthSet(base)):
-            offs.append([f.name, o.min, o.max, sorted(o % 8), sorted(o) if o.max - o.min <= 2048 else None])
+            offs.append([f.name, o.min, o.max, sorted(o % 8), sorted(o % 64), sorted(o) if expand and o.max - o.min <= 2048 else None])
     d["offsets"] = offs
     return d
 
@@ -168,12 +185,27 @@ def check_two_revisions(case, R: engine.Acc):
 
 
 def plan(tier):
-    return [{"part": p, "parts": 48} for p in range(48)] + [{"kind": "two-revisions"}] + H.plan_shards(['delimited-revisions', 'nested-revisions'], 2)
+    return [{"part": p, "parts": 48} for p in range(48)] + [{"kind": "two-revisions"}] + [{"kind": "big", "part": p, "parts": 8} for p in range(8)] + H.plan_shards(['delimited-revisions', 'nested-revisions'], 2)
 
 
 def cases(shard, tier):
     if shard.get("kind") == "call-histories":
         yield from H.cases_of(shard)
+        return
+    if shard.get("kind") == "big":
+        i = 0
+        for D1, D2 in big_pairs():
+            for kind in BIG_CONTAINERS[:1]:
+                if i % shard["parts"] == shard["part"]:
+                    yield {"D": D1, "D2": D2, "container": kind, "naming": "distinct"}
+                i += 1
+        for j, (D1, D2) in enumerate(pairs("quick")):
+            if j % 7 == 0:
+                for kind in BIG_CONTAINERS[1:]:
+                    for naming in ("distinct", "same-name-same-version"):
+                        if i % shard["parts"] == shard["part"]:
+                            yield {"D": D1, "D2": D2, "container": kind, "naming": naming}
+                        i += 1
         return
     if shard.get("kind") == "two-revisions":
         for vp in VERSION_PAIRS:
@@ -209,7 +241,8 @@ def check_case(case, R: engine.Acc):
     finally:
         T.NAME_OVERRIDES.clear()
     # (a) container layout is identical
-    l1, l2 = layout_obs(t1), layout_obs(t2)
+    small = kind not in BIG_CONTAINERS[1:]  # the implementation expands arrays of 9+ multi-valued elements combinatorially
+    l1, l2 = layout_obs(t1, small), layout_obs(t2, small)
     R.case([D1, D2, kind, naming, "layout"], nontrivial=True, sample=False)
     if kind != "self":
         # names of the nested types differ (hash of the description); offsets list carries field names of the container only
